@@ -500,6 +500,13 @@ func NewFeeMonitor(h *Hist) *FeeMonitor {
 }
 
 func (m *FeeMonitor) credit(addr string, c sdk.Coins) { m.bal[addr] = m.bal[addr].Add(c...) }
+
+// Credit / Debit / RegisterSigning / Balance let a check add ledger entries for fee flows that do not
+// come from MsgRequestSignature (data-source fees, oracle-result signings).
+func (m *FeeMonitor) Credit(addr string, c sdk.Coins)         { m.credit(addr, c) }
+func (m *FeeMonitor) Debit(h *Hist, addr string, c sdk.Coins) { m.debit(h, addr, c) }
+func (m *FeeMonitor) RegisterSigning(sid uint64, f sdk.Coins) { m.feeOf[sid] = f }
+func (m *FeeMonitor) Balance(addr string) sdk.Coins           { return m.bal[addr] }
 func (m *FeeMonitor) debit(h *Hist, addr string, c sdk.Coins) {
 	nb, neg := m.bal[addr].SafeSub(c...)
 	if neg {
